@@ -17,6 +17,8 @@ package main
 //   c20EmptyChecks      per resolve*Ref routine: the condition of its first statement when that is an `if`
 //   c20DrillConds       every `if` condition inside the drill closure of resolveComponent (source text)
 //   c20IsNilPointer     the body of isNilPointer (statements joined by "; ")
+//   c20VisitKeys        per resolve*Ref routine: the definition of `key` and the first arguments of its calls of
+//                       shouldVisitRef / visitRef / unvisitRef (since 7245059 the in-progress set is keyed by kind and text)
 //   c20PathItemIsEmpty  the fields (*PathItem).isEmpty looks at, in order (path_item.go)
 //   c20PathItemOps      the operation fields (*PathItem).Operations() collects, in order
 //   c20DerefCalls       (caller, callee) between InternalizeRefs / deref… functions of internalize_refs.go
@@ -73,7 +75,7 @@ func extractC20Loader(repo string) (string, error) {
 		f, err := parser.ParseFile(fset, fn, src, 0)
 		return fset, f, src, err
 	}
-	var resolvers, readable, otherAsserts, panics, edges, emptyChecks, drillConds, derefCalls, derefGuards []string
+	var resolvers, readable, otherAsserts, panics, edges, emptyChecks, drillConds, derefCalls, derefGuards, visitKeys []string
 	isNilBody := ""
 	oneLine := func(t string) string { return strings.Join(strings.Fields(t), " ") }
 	selectors := func(f *ast.File, want func(fn string) bool) []string {
@@ -161,6 +163,28 @@ func extractC20Loader(repo string) (string, error) {
 			}
 			return true
 		})
+		if isResolver {
+			keyDef := ""
+			var keyArgs []string
+			ast.Inspect(fd.Body, func(n ast.Node) bool {
+				switch x := n.(type) {
+				case *ast.AssignStmt:
+					if x.Tok == token.DEFINE && len(x.Lhs) == 1 && len(x.Rhs) == 1 {
+						if id, ok := x.Lhs[0].(*ast.Ident); ok && id.Name == "key" {
+							keyDef = oneLine(c20Src(fset, src, x.Rhs[0]))
+						}
+					}
+				case *ast.CallExpr:
+					if se, ok := x.Fun.(*ast.SelectorExpr); ok && len(x.Args) > 0 {
+						if se.Sel.Name == "shouldVisitRef" || se.Sel.Name == "visitRef" || se.Sel.Name == "unvisitRef" {
+							keyArgs = append(keyArgs, se.Sel.Name+"("+oneLine(c20Src(fset, src, x.Args[0]))+")")
+						}
+					}
+				}
+				return true
+			})
+			visitKeys = append(visitKeys, fmt.Sprintf("(%q, %q, %q)", name, keyDef, strings.Join(keyArgs, " ")))
+		}
 		if isResolver {
 			cond := ""
 			if len(fd.Body.List) > 0 {
@@ -385,7 +409,7 @@ func extractC20Loader(repo string) (string, error) {
 	sb.WriteString("-- generated by go/cmd/extract (table C20Loader) from openapi3/loader.go, schema.go, internalize_refs.go — do not edit\n")
 	sb.WriteString("import KinModel.LoadTypes\nnamespace KinModel.Gen\nopen KinModel.LoadTypes\n\n")
 	fmt.Fprintf(&sb, "-- rows: %d\n", len(resolvers)+len(readable)+len(otherAsserts)+len(panics)+len(edges)+len(loaderSel)+len(internSel)+
-		len(walkFuncs)+len(emptyChecks)+len(drillConds)+1+len(derefCalls)+len(derefGuards)+len(piEmpty)+len(piOps))
+		len(walkFuncs)+len(emptyChecks)+len(drillConds)+1+len(derefCalls)+len(derefGuards)+len(piEmpty)+len(piOps)+len(visitKeys))
 	sb.WriteString("def c20Resolvers : List ResolverRow := [\n  " + strings.Join(resolvers, ",\n  ") + "]\n\n")
 	sb.WriteString("def c20Readable : List String := [" + strings.Join(readable, ", ") + "]\n\n")
 	sb.WriteString("def c20OtherAsserts : List (String × String) := [\n  " + strings.Join(otherAsserts, ",\n  ") + "]\n\n")
@@ -397,6 +421,7 @@ func extractC20Loader(repo string) (string, error) {
 	sb.WriteString("def c20EmptyChecks : List (String × String) := [\n  " + strings.Join(emptyChecks, ",\n  ") + "]\n\n")
 	sb.WriteString("def c20DrillConds : List String := [\n  " + strings.Join(drillConds, ",\n  ") + "]\n\n")
 	fmt.Fprintf(&sb, "def c20IsNilPointer : String := %q\n\n", isNilBody)
+	sb.WriteString("def c20VisitKeys : List (String × String × String) := [\n  " + strings.Join(visitKeys, ",\n  ") + "]\n\n")
 	sb.WriteString("def c20PathItemIsEmpty : List String := [" + strings.Join(piEmpty, ", ") + "]\n\n")
 	sb.WriteString("def c20PathItemOps : List String := [" + strings.Join(piOps, ", ") + "]\n\n")
 	sb.WriteString("def c20DerefCalls : List (String × String) := [\n  " + strings.Join(derefCalls, ",\n  ") + "]\n\n")
